@@ -457,6 +457,10 @@ func (e *SpecEnv) call(n SCall) *Val {
 		return &Val{K: VInt, T: TruncP(e.evalInt(n.Args[0]))}
 	case "chopRound":
 		return &Val{K: VInt, T: ChopRound(e.evalInt(n.Args[0]))}
+	case "cvaVested":
+		// cvaVested(originalVesting, start, end, tUnix): the amount a ContinuousVestingAccount has vested (the library model's
+		// own formula, x/auth/vesting v0.46.10)
+		return &Val{K: VInt, T: vestedAmount(e.evalInt(n.Args[0]), e.evalInt(n.Args[1]), e.evalInt(n.Args[2]), e.evalInt(n.Args[3]))}
 	case "tquo":
 		return &Val{K: VInt, T: TQuo(e.evalInt(n.Args[0]), e.evalInt(n.Args[1]))}
 	case "abs":
